@@ -112,10 +112,13 @@ def sha_file(p):
     except OSError:
         return None
     k = (p, st.st_mtime_ns, st.st_size)
-    if k not in _sha_memo:
+    h = _sha_memo.get(k)
+    if h is None:
+        # build_artefact() runs in worker threads and clears the memo: never read the entry back from the dict
         with open(p, "rb") as fh:
-            _sha_memo[k] = hashlib.sha1(fh.read()).hexdigest()
-    return _sha_memo[k]
+            h = hashlib.sha1(fh.read()).hexdigest()
+        _sha_memo[k] = h
+    return h
 
 
 def tracked(p):
